@@ -180,7 +180,7 @@ impl Default for Counters {
         Counters {
             v: vec![0; C::_COUNT as usize],
             hard_by_class: vec![0; 13],
-            hard_by_kind: vec![0; 13],
+            hard_by_kind: vec![0; crate::scenario::ErrKind::COUNT],
         }
     }
 }
@@ -412,13 +412,13 @@ impl World {
                     a.fired.open_fail = true;
                     self.ctr.inc(C::open_fail_fired);
                     self.log.byte(b'F');
-                    return Err(k.to_io().into());
+                    return Err(k.to_error());
                 }
                 if let Some(k) = self.deny {
                     a.fired.denied = true;
                     self.ctr.inc(C::open_denied_fired);
                     self.log.byte(b'D');
-                    return Err(k.to_io().into());
+                    return Err(k.to_error());
                 }
                 // The updater wins the race against this very open call: whatever the loader
                 // learnt about the path before (its size, say) describes the previous file.
@@ -490,7 +490,7 @@ impl Read for SimFile {
         if let Some(k) = a.persistent {
             w.ctr.inc(C::reads_after_persistent_fault);
             w.log.byte(b'P');
-            return Err(k.to_io().into());
+            return Err(k.to_error());
         }
         let pos = self.pos;
         // 1. updater racing the reader
@@ -558,7 +558,7 @@ impl Read for SimFile {
             w.log.byte(b'h');
             w.log.u64(pos as u64);
             w.log.byte(h.kind as u8);
-            return Err(h.kind.to_io().into());
+            return Err(h.kind.to_error());
         }
         // 4. end of file
         if pos >= len {
